@@ -242,6 +242,9 @@ def run_case(case):
             scen.mutate(fs, rng, rng.randint(3, 7), hostile=0.1)
             # the recorded version has zero nanoseconds, the file on disk does not
             fs.write(a.disks[0], b"zns-2", A.gen_bytes(rng, 1300), mtime_ns=(A.EPOCH0 + 5000) * 10**9 + 123456789, keep_inode=True)
+            # ... and another one was modified to a DIFFERENT whole second (still zero nanoseconds on disk): touch may set its
+            # sub-second part but must leave the seconds of the file on disk alone
+            fs.write(a.disks[0], b"zns-1", A.gen_bytes(rng, 1200), mtime_ns=(A.EPOCH0 + 7000) * 10**9, keep_inode=True)
         st = fs.clone_entries()
         if "damaged" in state_kind:
             scen.damage_data_disk(a, fs, rng, rng.choice(a.disks), rng.choice(["delete", "flip", "truncate", "rmlinks"]), st)
